@@ -215,6 +215,30 @@ def _t_try_reraise(srcs):
                 fn.body[j:] = [ast.Try(body=body, handlers=[handler], orelse=[], finalbody=[])]
 
 
+def _t_np_functions(srcs):
+    """array methods spelled as numpy functions: x.sum(...) -> np.sum(x, ...), x.all() / x.any() / x.max() / x.min() likewise,
+    x.T -> np.transpose(x)"""
+    import ast
+
+    class R(ast.NodeTransformer):
+        def visit_Call(self, node):
+            self.generic_visit(node)
+            if isinstance(node.func, ast.Attribute) and node.func.attr in ("sum", "all", "any", "max", "min") and \
+                    not (isinstance(node.func.value, ast.Name) and node.func.value.id in ("np", "numpy", "self", "rng")):
+                return ast.copy_location(ast.Call(func=ast.Attribute(value=ast.Name("np", ast.Load()), attr=node.func.attr, ctx=ast.Load()),
+                                                  args=[node.func.value] + node.args, keywords=node.keywords), node)
+            return node
+
+        def visit_Attribute(self, node):
+            self.generic_visit(node)
+            if node.attr == "T" and isinstance(node.ctx, ast.Load):
+                return ast.copy_location(ast.Call(func=ast.Attribute(value=ast.Name("np", ast.Load()), attr="transpose", ctx=ast.Load()), args=[node.value], keywords=[]), node)
+            return node
+    for pth, tree in srcs.items():
+        if "import numpy as np" in ast.unparse(tree)[:6000]:
+            R().visit(tree)
+
+
 def _t_strip_docs_annotate(srcs):
     """docstrings removed, every parameter annotated with `object`, every function given a return annotation"""
     import ast
@@ -374,7 +398,7 @@ def _t_accept_lists(srcs):
                         n.body[k:k] = ast.parse("if not isinstance(%s, np.ndarray):\n    %s = np.array(%s)\n" % (a.arg, a.arg, a.arg)).body
 
 
-TREE_TRANSFORMS = {"@coerce_params": _t_coerce_params, "@accept_lists": _t_accept_lists, "@early_exit": _t_early_exit, "@numpy_alias": _t_numpy_alias, "@kwargs_calls": _t_kwargs_calls, "@strip_docs_annotate": _t_strip_docs_annotate, "@logging": _t_logging, "@traced": _t_traced, "@kwonly": _t_kwonly, "@extra_param": _t_extra_param, "@try_reraise": _t_try_reraise,
+TREE_TRANSFORMS = {"@coerce_params": _t_coerce_params, "@accept_lists": _t_accept_lists, "@early_exit": _t_early_exit, "@numpy_alias": _t_numpy_alias, "@kwargs_calls": _t_kwargs_calls, "@strip_docs_annotate": _t_strip_docs_annotate, "@logging": _t_logging, "@traced": _t_traced, "@kwonly": _t_kwonly, "@extra_param": _t_extra_param, "@try_reraise": _t_try_reraise, "@np_functions": _t_np_functions,
                    "@shim": _t_shim}
 
 
